@@ -458,6 +458,8 @@ def run(ctx):
         "TESTED by dense search on the implementation, not proved: the bound clause of Schwefel and Michaelwicz (their value clause "
         "is proved: Schwefel n <= 1000, Michalewicz n = 2) and both numeric clauses of Schubert",
         "XinSheYang3: the uniform(0,1) draws are recorded from the implementation and fed to the model; theorem holds for every draw in [0,1]",
+        "concurrent stream: 4 threads evaluate different points on one problem object (switch interval 1e-6 s) and every value must equal "
+        "the value of the point evaluated alone; a one-sided test - which interleavings occur is up to the interpreter",
     ]
     ctx.extra["tested_only"] = list(TESTED_ONLY)
     ctx.extra["tolerance_documented_constants"] = TOL
@@ -663,10 +665,82 @@ def run(ctx):
                 name, n, bx, bv, mo["opt"]), point_case(name, n, bx, kind, mo, None, None, "bound"))
 
 
+    # ---- 6. the same values while several threads evaluate different points on ONE problem object (what the
+    # framework's own parallel evaluator does); deterministic families only.  One-sided test.
+    if not ctx.failures:
+        run_concurrent(ctx, metas)
+
+
+def run_concurrent(ctx, metas):
+    import sys
+    import threading
+    import numpy as np
+    from artap.individual import Individual
+    rng = ctx.rng
+    nthreads, npts, rounds = 4, 64, (12 if ctx.quick else 120)
+    old = sys.getswitchinterval()
+    sys.setswitchinterval(1e-6)
+    try:
+        for (name, n), mo in metas.items():
+            if name == "XinSheYang3" or n > 10 or (ctx.quick and n not in (1, 2, 5)):
+                continue
+            p = problem(name, n)
+            pts = [[rng.uniform(lo, hi) for lo, hi in mo["box"]] for _ in range(npts)]
+            if mo["coords"] is not None:
+                pts[0] = list(mo["coords"])
+            inds = [Individual([float(t) for t in x]) for x in pts]
+            with np.errstate(all="ignore"):
+                serial = [call(p, x, "float") for x in pts]
+                if any(r[0] != "ok" for r in serial):
+                    continue                       # reported by the other streams
+                want = [r[1] for r in serial]
+                bad = []
+                start = threading.Barrier(nthreads)
+
+                def work(t):
+                    start.wait()
+                    ev = p.evaluate
+                    for r in range(rounds):
+                        for k in range(t, npts, nthreads):
+                            try:
+                                v = float(ev(inds[k])[0])
+                            except Exception as e:   # noqa
+                                v = repr(e)
+                            if v != want[k] and not (isinstance(v, float) and close(v, want[k])):
+                                bad.append((k, v))
+                                return
+                ths = [threading.Thread(target=work, args=(t,)) for t in range(nthreads)]
+                for th in ths:
+                    th.start()
+                for th in ths:
+                    th.join()
+            ctx.count("concurrent_evaluations", npts * rounds)
+            ctx.case(("conc", name, n), True)
+            if bad:
+                k, v = bad[0]
+                ctx.fail(fail_key(name, "concurrent", n), "%s(dimension=%d).evaluate(%r) returned %r while %d threads evaluate other points on "
+                         "the same problem object; evaluated alone it returns %r" % (name, n, pts[k], v, nthreads, want[k]),
+                         {"name": name, "n": n, "x": pts[k], "kind": "float", "clause": "concurrent"})
+                return
+    finally:
+        sys.setswitchinterval(old)
+
+
 # --------------------------------------------------------------------------- replay / corpus / search
 
 def replay(ctx, rp):
     c = rp["case"]
+    if c.get("clause") == "concurrent":
+        # the failing value depends on the interleaving of the threads: run the concurrent stream of that family again
+        im = impl_meta(c["name"], c["n"])
+        for _ in range(5):
+            before = len(ctx.failures)
+            run_concurrent(ctx, {(c["name"], c["n"]): im})
+            if len(ctx.failures) > before:
+                print(ctx.failures[-1]["what"])
+                return False
+        print("5 concurrent rounds: every value equals the value of the point evaluated alone")
+        return True
     if c.get("op") == "meta":
         im = impl_meta(c["family"], c["dimension"])
         doc = dict(c["documented"])
